@@ -11,7 +11,7 @@ from record import Session, relabel
 def spec_enumerated(maxn, palette, limit=None, seed=0):
     """every molecule (and relabelling generator) of the bounded model MC_Tucan, as printed by TLC itself"""
     cfg = f"""SPECIFICATION ESpec
-CONSTANTS RLimit = 99 BFLimit = 6 MaxN = {maxn}
+CONSTANTS RLimit = 99 BFLimit = 6 MaxN = {maxn} AnyLabelling = FALSE
   Palette <- {palette}
 CONSTRAINT EmitInputs
 CHECK_DEADLOCK FALSE
